@@ -1126,7 +1126,7 @@ void htp_utf8_validate_path(htp_tx_t *tx, bstr *path) {
                 }
 
                 // Special flag for half-width/full-width evasion.
-                if ((codepoint > 0xfeff) && (codepoint < 0x010000)) {
+                if ((codepoint >= 0xff00) && (codepoint <= 0xffef)) {
                     tx->flags |= HTP_PATH_HALF_FULL_RANGE;
                 }
 
